@@ -231,7 +231,8 @@ public:
     QXmppTransferFileInfo fileInfo;
 
     // for in-band bytestreams
-    int ibbSequence;
+    // (XEP-0047: 16-bit counter that wraps around to 0 after 65535)
+    quint16 ibbSequence;
 
     // for socks5 bytestreams
     QTcpSocket *socksSocket;
